@@ -16,12 +16,13 @@ Arguments N.of_nat : simpl never.
 (* ------------------------------------------------------------------ *)
 (** * 1. validate_version_nums *)
 
-Lemma vnext_w0 dbg n : n < U32MAX -> vnext dbg (mkV n 0) = Ok (mkV (n + 1) 0).
+(** VersionNum::next on an unpadded number (next_version always is one), both build modes *)
+Lemma vnext_w0 dbg n :
+  vnext dbg (mkV n 0) = if U32MAX <=? n then Err else Ok (mkV (n + 1) 0).
 Proof.
-  intros H. unfold vnext. cbn [vn_width vn_number].
-  replace (0 =? 0) with true by reflexivity. cbn [res_bind].
-  unfold u32_op. replace (n + 1 <=? U32MAX) with true by lia. cbn [res_bind].
-  replace (U32MAX <? n + 1) with false by lia. reflexivity.
+  unfold vnext. cbn [vn_width vn_number]. change (0 =? 0) with true. cbn [res_bind].
+  destruct (U32MAX <=? n) eqn:E; [reflexivity|].
+  unfold u32_op. replace (n + 1 <=? U32MAX) with true by lia. reflexivity.
 Qed.
 
 Lemma nlen_cons {A} (a : A) l : nlen (a :: l) = nlen l + 1.
@@ -30,157 +31,188 @@ Proof. unfold nlen. cbn [List.length]. lia. Qed.
 Lemma nlen_nil {A} : nlen (@nil A) = 0.
 Proof. reflexivity. Qed.
 
-(** the while loop: with fuel for the distance it ends at the target, having
-    emitted exactly one error per missing number *)
-Lemma gap_loop_exact dbg fuel : forall n target cost,
+(** the inner while loop: with fuel for the distance it ends at the target, having emitted
+    exactly one error per missing number; [next().unwrap()] cannot fail below the target *)
+Lemma gap_loop_exact dbg fuel : forall n target e i,
   target <= U32MAX -> target - n <= N.of_nat fuel ->
-  gap_loop dbg fuel (mkV n 0) target cost = Ok (mkV (N.max n target) 0, cost + (target - n)).
+  gap_loop dbg fuel (mkV n 0) target (mkC e i)
+  = Ok (mkV (N.max n target) 0, mkC (e + (target - n)) (i + (target - n))).
 Proof.
-  induction fuel as [|f IH]; intros n target cost Ht Hf.
+  induction fuel as [|f IH]; intros n target e i Ht Hf.
   - change (N.of_nat 0) with 0 in Hf. cbn [gap_loop vn_number]. destruct (n <? target) eqn:E; [exfalso; lia|].
-    f_equal; f_equal; [f_equal; lia | lia].
+    f_equal; f_equal; f_equal; lia.
   - rewrite Nat2N.inj_succ in Hf. cbn [gap_loop vn_number]. destruct (n <? target) eqn:E.
-    + rewrite vnext_w0 by lia. cbn [unwrap]. rewrite IH by lia.
-      f_equal; f_equal; [f_equal; lia | lia].
-    + f_equal; f_equal; [f_equal; lia | lia].
+    + rewrite vnext_w0. replace (U32MAX <=? n) with false by lia. cbn [unwrap c_errors c_iters].
+      rewrite IH by lia. f_equal; f_equal; f_equal; lia.
+    + f_equal; f_equal; f_equal; lia.
 Qed.
 
-(** exactness of the closed form, all lists (sorted or not), both build modes *)
-Lemma vnums_go_exact dbg fuel : forall vs n cost,
-  n + nlen vs <= U32MAX ->
-  Forall (fun v => vn_number v + nlen vs < U32MAX /\ vn_number v <= N.of_nat fuel) vs ->
-  vnums_go dbg fuel vs (mkV n 0) cost = Ok (vnums_fast (map vn_number vs) n cost).
+(** the [if next_version < *version] statement: MAX_LISTED units of fuel always suffice *)
+Lemma gap_stmt_exact dbg fuel n v e i :
+  vn_number v <= U32MAX -> MAX_LISTED <= N.of_nat fuel ->
+  gap_stmt dbg fuel (mkV n 0) v (mkC e i)
+  = Ok (mkV (N.max n (vn_number v)) 0,
+        mkC (e + gap_errors (vn_number v - n)) (i + gap_iters (vn_number v - n))).
 Proof.
-  induction vs as [|v rest IH]; intros n cost Hn Hall.
+  intros Hv Hf. unfold gap_stmt, gap_errors, gap_iters. cbn [vn_number vn_width c_errors c_iters].
+  destruct (n <? vn_number v) eqn:E.
+  - destruct (MAX_LISTED <? vn_number v - n) eqn:G.
+    + f_equal; f_equal; f_equal; lia.
+    + rewrite gap_loop_exact by lia. reflexivity.
+  - replace (vn_number v - n) with 0 by lia.
+    replace (MAX_LISTED <? 0) with false by lia.
+    f_equal; f_equal; f_equal; lia.
+Qed.
+
+(** exactness of the closed form: ALL lists of u32 numbers (sorted or not, any padding), both
+    build modes; never a panic, never out of fuel *)
+Lemma vnums_go_exact dbg fuel : MAX_LISTED <= N.of_nat fuel -> forall vs n e i,
+  Forall (fun v => vn_number v <= U32MAX) vs ->
+  vnums_go dbg fuel vs (mkV n 0) (mkC e i) = Ok (vnums_fast (map vn_number vs) n (mkC e i)).
+Proof.
+  intros Hf. induction vs as [|v rest IH]; intros n e i Hall.
   - reflexivity.
-  - inversion Hall as [|? ? [Hv Hfu] Hrest]; subst.
-    rewrite nlen_cons in *.
-    cbn [vnums_go map vnums_fast vn_number].
-    assert (Hg : (if negb (vn_number v =? n) then gap_loop dbg fuel (mkV n 0) (vn_number v) cost
-                  else Ok (mkV n 0, cost))
-                 = Ok (mkV (N.max n (vn_number v)) 0, cost + (vn_number v - n))).
-    { destruct (vn_number v =? n) eqn:E; cbn [negb].
-      - f_equal; f_equal; [f_equal; lia | lia].
-      - apply gap_loop_exact; lia. }
-    rewrite Hg. rewrite vnext_w0 by lia. cbn [unwrap].
-    apply IH; [lia|].
-    eapply Forall_impl; [|exact Hrest]. cbn beta. intros a [Ha Hb]. split; lia.
+  - inversion Hall as [|? ? Hv Hrest]; subst.
+    cbn [vnums_go map vnums_fast c_errors c_iters].
+    rewrite gap_stmt_exact by assumption.
+    rewrite vnext_w0.
+    destruct (U32MAX <=? N.max n (vn_number v)); [reflexivity|].
+    apply IH. exact Hrest.
 Qed.
 
-Lemma validate_version_nums_exact dbg fuel vs :
-  1 + nlen vs <= U32MAX ->
-  Forall (fun v => vn_number v + nlen vs < U32MAX /\ vn_number v <= N.of_nat fuel) vs ->
-  validate_version_nums dbg fuel vs = Ok (vnums_cost (map vn_number vs)).
-Proof. intros. unfold validate_version_nums, vn_v1, vnums_cost. now apply vnums_go_exact. Qed.
-
-Fixpoint nsum (l : list N) : N := match l with [] => 0 | x :: r => x + nsum r end.
-
-(** cost = sum of the gaps *)
-Lemma vnums_fast_sum : forall vs next cost,
-  vnums_fast vs next cost = cost + nsum (vnums_gaps vs next).
+Lemma validate_version_nums_exact dbg vs :
+  Forall (fun v => vn_number v <= U32MAX) vs ->
+  validate_version_nums dbg vs = Ok (vnums_fast (map vn_number vs) 1 c0).
 Proof.
-  induction vs as [|v r IH]; intros next cost; cbn [vnums_fast vnums_gaps nsum]; [lia|].
-  rewrite IH. lia.
+  intros H. unfold validate_version_nums, vn_v1, c0. apply vnums_go_exact; [|exact H].
+  rewrite N2Nat.id. lia.
 Qed.
 
-Lemma vnums_fast_ge : forall vs next cost, cost <= vnums_fast vs next cost.
-Proof. intros. rewrite vnums_fast_sum. lia. Qed.
+(** ** the cost is linear in the number of keys, whatever the numbers are *)
+
+Lemma gap_errors_le g : gap_errors g <= N.max 1 MAX_LISTED.
+Proof. unfold gap_errors. destruct (MAX_LISTED <? g) eqn:E; lia. Qed.
+
+Lemma gap_iters_le g : gap_iters g <= MAX_LISTED.
+Proof. unfold gap_iters. destruct (MAX_LISTED <? g) eqn:E; lia. Qed.
+
+Lemma gap_errors_zero g : gap_errors g = 0 -> g = 0.
+Proof. unfold gap_errors. destruct (MAX_LISTED <? g) eqn:E; lia. Qed.
+
+Lemma vnums_fast_linear : forall vs next c,
+  c_errors (vnums_fast vs next c) <= c_errors c + N.max 1 MAX_LISTED * nlen vs /\
+  c_iters (vnums_fast vs next c) <= c_iters c + (MAX_LISTED + 1) * nlen vs.
+Proof.
+  induction vs as [|v r IH]; intros next c; cbn [vnums_fast].
+  - rewrite (@nlen_nil N). lia.
+  - rewrite nlen_cons.
+    assert (G1 := gap_errors_le (v - next)). assert (G2 := gap_iters_le (v - next)).
+    destruct (U32MAX <=? N.max next v).
+    + cbn [c_errors c_iters]. lia.
+    + match goal with |- context [vnums_fast r ?n ?c'] => destruct (IH n c') as [A B] end.
+      cbn [c_errors c_iters] in A, B. lia.
+Qed.
+
+Lemma vnums_fast_ge : forall vs next c, c_errors c <= c_errors (vnums_fast vs next c).
+Proof.
+  induction vs as [|v r IH]; intros next c; cbn [vnums_fast]; [lia|].
+  destruct (U32MAX <=? N.max next v).
+  - cbn [c_errors]. lia.
+  - match goal with |- context [vnums_fast r ?n ?c'] => assert (A := IH n c') end.
+    cbn [c_errors] in A. lia.
+Qed.
+
+Lemma vnums_cost_linear_generic vs :
+  vnums_cost vs <= N.max 1 MAX_LISTED * nlen vs /\ vnums_iters vs <= (MAX_LISTED + 1) * nlen vs.
+Proof.
+  unfold vnums_cost, vnums_iters. destruct (vnums_fast_linear vs 1 c0) as [A B].
+  cbn [c0 c_errors c_iters] in A, B. lia.
+Qed.
+
+(** pinned: the constant read from the source (Generated/Consts.v) is 100 *)
+Lemma max_listed_pinned : MAX_LISTED = 100.
+Proof. reflexivity. Qed.
+
+Lemma vnums_cost_linear vs : vnums_cost vs <= 100 * nlen vs /\ vnums_iters vs <= 101 * nlen vs.
+Proof. assert (H := vnums_cost_linear_generic vs). rewrite max_listed_pinned in H. lia. Qed.
+
+(** the statement about the loop itself: for every list of u32 version numbers it returns
+    normally, with at most 100 errors and 101 loop iterations per key *)
+Lemma validate_version_nums_linear dbg vs :
+  Forall (fun v => vn_number v <= U32MAX) vs ->
+  exists c, validate_version_nums dbg vs = Ok c /\
+            c_errors c <= 100 * nlen vs /\ c_iters c <= 101 * nlen vs /\
+            c_errors c = vnums_cost (map vn_number vs).
+Proof.
+  intros H. rewrite (validate_version_nums_exact dbg vs H).
+  exists (vnums_fast (map vn_number vs) 1 c0).
+  assert (L := vnums_cost_linear (map vn_number vs)). unfold vnums_cost, vnums_iters, nlen in L.
+  rewrite map_length in L. destruct L as [L1 L2]. unfold nlen, vnums_cost.
+  split; [reflexivity|]. split; [exact L1|]. split; [exact L2|reflexivity].
+Qed.
+
+(** the bound of 100 errors per key is attained (a gap of exactly 100 is listed one by one),
+    and the next larger gap costs one error *)
+Lemma vnums_cost_bound_tight :
+  vnums_cost [101] = 100 * nlen [101] /\ vnums_iters [101] = 101 * nlen [101] /\
+  vnums_cost [102] = 1 /\ vnums_cost [1; 102] = 100 /\ vnums_cost [1; 103] = 1 /\ vnums_cost [400000000] = 1 /\ vnums_cost [U32MAX] = 1 /\
+  vnums_cost [1; 2; U32MAX] = 1.
+Proof. repeat split; vm_compute; reflexivity. Qed.
 
 (** strictly ascending lists whose first element is at least [next]
     (the iteration order of the BTreeSet when [next] = 1) *)
 Fixpoint incr_from (next : N) (vs : list N) : Prop :=
   match vs with [] => True | v :: r => next <= v /\ incr_from (v + 1) r end.
 
-Lemma vnums_fast_sorted : forall vs next cost, incr_from next vs -> vs <> [] ->
-  vnums_fast vs next cost + nlen vs + next = cost + last vs 0 + 1.
-Proof.
-  induction vs as [|v r IH]; intros next cost Hs Hne; [congruence|].
-  destruct Hs as [Hle Hr]. cbn [vnums_fast]. rewrite nlen_cons.
-  destruct r as [|w r'].
-  - cbn [vnums_fast last]. rewrite nlen_nil. lia.
-  - assert (Hne' : w :: r' <> []) by discriminate.
-    specialize (IH (N.max next v + 1) (cost + (v - next))).
-    replace (N.max next v + 1) with (v + 1) in * by lia.
-    specialize (IH Hr Hne').
-    change (last (v :: w :: r') 0) with (last (w :: r') 0). lia.
-Qed.
-
-(** for the versions block of an inventory: errors = highest number - number of keys *)
-Lemma vnums_cost_sorted vs : incr_from 1 vs -> vs <> [] ->
-  vnums_cost vs = last vs 0 - nlen vs.
-Proof.
-  intros Hs Hne. unfold vnums_cost.
-  assert (H := vnums_fast_sorted vs 1 0 Hs Hne). lia.
-Qed.
-
-(** linear bound when every gap is bounded *)
-Lemma vnums_fast_linear B : forall vs next cost,
-  existsb (fun g => B <? g) (vnums_gaps vs next) = false ->
-  vnums_fast vs next cost <= cost + B * nlen vs.
-Proof.
-  induction vs as [|v r IH]; intros next cost H; cbn [vnums_fast vnums_gaps existsb] in *.
-  - rewrite nlen_nil. lia.
-  - rewrite nlen_cons. apply Bool.orb_false_iff in H as [H1 H2].
-    specialize (IH _ (cost + (v - next)) H2). lia.
-Qed.
-
-Lemma vnums_cost_linear_outside_class vs :
-  c17_version_gap vs = false -> vnums_cost vs <= GAP_BOUND * nlen vs.
-Proof. intros H. unfold vnums_cost. apply (vnums_fast_linear GAP_BOUND vs 1 0 H). Qed.
-
-(** no constant works for the pinned code: one key costs as much as its number *)
-Lemma vnums_cost_single c : vnums_cost [c + 2] = c + 1.
-Proof. unfold vnums_cost. cbn [vnums_fast]. lia. Qed.
-
-Lemma vnums_loop_single dbg fuel c : c + 3 < U32MAX -> c + 2 <= N.of_nat fuel ->
-  validate_version_nums dbg fuel [mkV (c + 2) 0] = Ok (c + 1).
-Proof.
-  intros H1 H2. rewrite validate_version_nums_exact.
-  - cbn [map vn_number]. now rewrite vnums_cost_single.
-  - rewrite nlen_cons, nlen_nil. unfold U32MAX in *. lia.
-  - constructor; [|constructor]. cbn [vn_number]. rewrite nlen_cons, nlen_nil. split; lia.
-Qed.
-
-Lemma vnums_cost_not_linear c : c + 3 < U32MAX ->
-  exists vs, nlen vs = 1 /\ incr_from 1 vs /\ c * nlen vs < vnums_cost vs /\
-    forall dbg fuel, last vs 0 <= N.of_nat fuel ->
-      validate_version_nums dbg fuel (map (fun n => mkV n 0) vs) = Ok (vnums_cost vs).
-Proof.
-  intros H. exists [c + 2]. rewrite vnums_cost_single. repeat split.
-  - cbn [incr_from]. lia.
-  - rewrite nlen_cons, nlen_nil. lia.
-  - intros dbg fuel Hf. cbn [map last] in *. now apply vnums_loop_single.
-Qed.
-
-Lemma v400000000_witness :
-  vnums_cost [400000000] = 399999999 /\ c17_version_gap [400000000] = true /\
-  forall dbg fuel, 400000000 <= N.of_nat fuel ->
-    validate_version_nums dbg fuel [mkV 400000000 0] = Ok 399999999.
-Proof.
-  split; [vm_compute; reflexivity|]. split; [vm_compute; reflexivity|].
-  intros dbg fuel Hf. apply (vnums_loop_single dbg fuel 399999998); unfold U32MAX; lia.
-Qed.
-
 (** no E010 from the loop: the keys are exactly next, next+1, ... *)
 Fixpoint iota (next : N) (k : nat) : list N :=
   match k with O => [] | S j => next :: iota (next + 1) j end.
 
-Lemma vnums_zero_contiguous : forall vs next cost, incr_from next vs ->
-  vnums_fast vs next cost = cost -> vs = iota next (List.length vs).
+Lemma vnums_zero_contiguous : forall vs next c, incr_from next vs ->
+  Forall (fun v => v <= U32MAX) vs ->
+  c_errors (vnums_fast vs next c) = c_errors c -> vs = iota next (List.length vs).
 Proof.
-  induction vs as [|v r IH]; intros next cost Hs H; [reflexivity|].
-  destruct Hs as [Hle Hr]. cbn [vnums_fast] in H.
-  assert (Hge := vnums_fast_ge r (N.max next v + 1) (cost + (v - next))).
-  assert (v = next) by lia. subst v.
-  cbn [List.length iota]. f_equal.
-  apply (IH (next + 1) (cost + (next - next))); [exact Hr|].
-  replace (N.max next next + 1) with (next + 1) in H by lia. lia.
+  induction vs as [|v r IH]; intros next c Hs Hb H; [reflexivity|].
+  destruct Hs as [Hle Hr]. inversion Hb as [|? ? Hv Hbr]; subst. cbn [vnums_fast] in H.
+  destruct (U32MAX <=? N.max next v) eqn:E.
+  - cbn [c_errors] in H. assert (Z : gap_errors (v - next) = 0) by lia.
+    apply gap_errors_zero in Z. assert (v = next) by lia. subst v.
+    destruct r as [|w r']; [reflexivity|].
+    exfalso. destruct Hr as [Hw _]. inversion Hbr; subst. lia.
+  - match type of H with context [vnums_fast r ?n ?c'] => assert (Hge := vnums_fast_ge r n c') end.
+    cbn [c_errors] in Hge. assert (Z : gap_errors (v - next) = 0) by lia.
+    assert (Z0 := Z). apply gap_errors_zero in Z. assert (v = next) by lia. subst v.
+    cbn [List.length iota]. f_equal.
+    match type of H with context [vnums_fast r ?n ?c'] => apply (IH (next + 1) c') end.
+    + exact Hr.
+    + exact Hbr.
+    + replace (N.max next next + 1) with (next + 1) in H by lia. cbn [c_errors]. lia.
 Qed.
 
 Lemma iota_lookup : forall k next j, (j < k)%nat -> nth j (iota next k) 0 = next + N.of_nat j.
 Proof.
   induction k as [|k IH]; intros next j Hj; [lia|].
   destruct j as [|j]; cbn [iota nth]; [lia|]. rewrite IH by lia. lia.
+Qed.
+
+(** ** historical note - NOT the current code.  Before commit 719e6a5 the loop emitted one
+    E010 per missing number whatever the size of the gap; its closed form (proved exact for the
+    loop of that time) was [vnums_fast_before_fix]: no constant bounded the cost per key. *)
+Fixpoint vnums_fast_before_fix (vs : list N) (next cost : N) : N :=
+  match vs with
+  | [] => cost
+  | v :: rest => vnums_fast_before_fix rest (N.max next v + 1) (cost + (v - next))
+  end.
+Definition vnums_cost_before_fix (vs : list N) : N := vnums_fast_before_fix vs 1 0.
+
+Lemma vnums_cost_before_fix_not_linear c :
+  exists vs, nlen vs = 1 /\ incr_from 1 vs /\ c * nlen vs < vnums_cost_before_fix vs /\
+             vnums_cost vs <= 100 * nlen vs.
+Proof.
+  exists [c + 2]. repeat split.
+  - cbn [incr_from]. lia.
+  - rewrite nlen_cons, nlen_nil. unfold vnums_cost_before_fix. cbn [vnums_fast_before_fix]. lia.
+  - apply vnums_cost_linear.
 Qed.
 
 (* ------------------------------------------------------------------ *)
@@ -247,7 +279,8 @@ Definition pinv (st : pst) : Prop :=
   (f_digest st = true -> has_errors (p_errs st) = true) /\
   (f_head st = true -> has_errors (p_errs st) = true) /\
   (f_manifest st = true -> has_errors (p_errs st) = true) /\
-  (f_versions st = true -> has_errors (p_errs st) = true).
+  (f_versions st = true -> has_errors (p_errs st) = true) /\
+  (forall i, p_id st = Some i -> is_nil' i = true -> has_errors (p_errs st) = true).   (* serde.rs:185-189 *)
 
 Lemma pinv_p0 : pinv p0.
 Proof. unfold pinv, p0; cbn. repeat split; intros; discriminate. Qed.
@@ -264,7 +297,7 @@ Ltac pinv_case :=
   | Hinv : pinv _ |- pinv _ =>
       unfold pinv, add in *; cbn [p_id p_type p_alg p_head p_cdir p_manifest p_versions p_fixity
                                    f_digest f_head f_manifest f_versions p_errs] in *;
-      destruct Hinv as (I1 & I2 & I3 & I4 & I5 & I6 & I7);
+      destruct Hinv as (I1 & I2 & I3 & I4 & I5 & I6 & I7 & I8);
       repeat split; intros;
       rewrite ?has_errors_app in *; cbn [has_errors existsb snd N.ltb] in *;
       rewrite ?Bool.orb_true_r, ?Bool.orb_false_r in *;
@@ -277,8 +310,20 @@ Proof.
   all: pinv_case.
   all: try congruence.
   all: try (match goal with
+            | |- context [if is_nil' ?s then _ else _] => destruct (is_nil' s) eqn:?
+            | H : context [if is_nil' ?s then _ else _] |- _ => destruct (is_nil' s) eqn:?
+            end;
+            rewrite ?has_errors_app in *; cbn [has_errors existsb snd N.ltb] in *;
+            rewrite ?Bool.orb_true_r, ?Bool.orb_false_r in *;
+            try discriminate; try reflexivity; eauto).
+  all: try (match goal with
             | I : ?f = true -> has_errors (p_errs _) = true, H : ?f = true |- _ => rewrite (I H); reflexivity
             end).
+  all: try (match goal with
+            | I : forall i, p_id _ = Some i -> is_nil' i = true -> has_errors (p_errs _) = true,
+              H : p_id _ = Some ?i, H' : is_nil' ?i = true |- _ => rewrite (I i H H'); reflexivity
+            end).
+  all: try (match goal with Hs : Some _ = Some _ |- _ => inversion Hs; subst; congruence end).
   match goal with
   | Hv : versions_value _ = _, Hs : Some _ = Some _, He : _ || _ = false |- _ =>
       inversion Hs; subst; apply Bool.orb_false_iff in He as [_ He]; eapply versions_value_ok; eauto
@@ -316,41 +361,8 @@ Proof.
   - inversion H; subst. eapply step_abort; eauto.
 Qed.
 
-(** the value of the first "id" key *)
-Fixpoint first_id (items : list item) : option bytes :=
-  match items with
-  | [] => None
-  | IId (SStr s) :: _ => Some s
-  | IId _ :: _ => None
-  | _ :: r => first_id r
-  end.
-
-Lemma step_id st it st2 : step st it = inl st2 ->
-  p_id st2 = match p_id st with
-             | Some i => Some i
-             | None => match it with IId (SStr s) => Some s | _ => None end
-             end.
-Proof.
-  intros H. destruct it; unfold step in H; split_matches; unfold add; cbn [p_id];
-    repeat match goal with H : p_id _ = _ |- _ => rewrite H end; try reflexivity;
-    destruct (p_id st); reflexivity.
-Qed.
-
-Lemma run_id : forall items st st2, run st items = inl st2 ->
-  p_id st2 = match p_id st with Some i => Some i | None => first_id items end.
-Proof.
-  induction items as [|it rest IH]; intros st st2 H; cbn [run] in H.
-  - inversion H; subst. cbn [first_id]. destruct (p_id st2); reflexivity.
-  - destruct (step st it) as [st1|e] eqn:S; [|discriminate].
-    rewrite (IH _ _ H). rewrite (step_id _ _ _ S).
-    destruct (p_id st) eqn:Ei; [reflexivity|].
-    destruct it as [v|v|v|v|v|m|v|f|]; try reflexivity.
-    destruct v; cbn [first_id]; try reflexivity.
-    all: unfold step in S; rewrite Ei in S; discriminate.
-Qed.
-
-Lemma blen_zero s : (blen s =? 0) = is_nil s.
-Proof. destruct s; unfold blen; cbn [List.length is_nil]; lia. Qed.
+Lemma blen_zero' s : (blen s =? 0) = is_nil' s.
+Proof. destruct s; unfold blen; cbn [List.length is_nil']; lia. Qed.
 
 Lemma finish_snd st : snd (finish st) = p_errs st ++ final_errs st.
 Proof.
@@ -361,16 +373,17 @@ Proof.
 Qed.
 
 (** what IS guarded, check by check: with no recorded error all six Options are Some and every
-    check of Inventory::new except the one on the id is implied by an earlier check *)
+    check of Inventory::new is implied by an earlier check of the visitor - since commit b116ae5
+    also the one on the id (E037 for the empty string, serde.rs:185-189) *)
 Lemma finish_args st : pinv st -> has_errors (snd (finish st)) = false ->
   exists id a h nums,
-    p_id st = Some id /\ p_type st = true /\ p_alg st = Some a /\ alg_allowed a = true /\
+    p_id st = Some id /\ id <> [] /\ p_type st = true /\ p_alg st = Some a /\ alg_allowed a = true /\
     p_head st = Some h /\ p_manifest st = true /\ p_versions st = Some (nums, nums) /\
     vset_mem h nums = true /\
     (forall d, p_cdir st = Some d -> cdir_kind d = None) /\
-    inventory_new id a h (p_cdir st) nums = (if is_nil id then Err else Ok tt).
+    inventory_new id a h (p_cdir st) nums = Ok tt.
 Proof.
-  intros (I1 & I2 & I3 & I4 & I5 & I6 & I7).
+  intros (I1 & I2 & I3 & I4 & I5 & I6 & I7 & I8).
   rewrite finish_snd. intros He.
   rewrite has_errors_app in He. apply Bool.orb_false_iff in He as [He0 He].
   unfold final_errs in He. rewrite !has_errors_app, !has_errors_opt in He.
@@ -389,61 +402,66 @@ Proof.
   apply Bool.orb_false_iff in He as [Hmem _].
   assert (keys = nums) by (eapply I3; eauto). subst keys.
   assert (Hm : vset_mem h nums = true) by (destruct (vset_mem h nums); [reflexivity|discriminate]).
+  assert (Hid : is_nil' id = false).
+  { destruct (is_nil' id) eqn:En; [|reflexivity]. rewrite (I8 id eq_refl En) in He0. discriminate. }
   exists id, a, h, nums. repeat split; try reflexivity; auto.
-  unfold inventory_new. rewrite blen_zero. destruct (is_nil id); [reflexivity|].
-  rewrite (I2 a) by reflexivity. cbn [negb].
-  assert (Hc : (match p_cdir st with Some d => if cdir_kind d then true else false | None => false end) = false).
-  { destruct (p_cdir st) as [d|] eqn:Ec; [|reflexivity]. rewrite (I1 d) by reflexivity. reflexivity. }
-  rewrite Hc, Hm. reflexivity.
+  - intros ->. discriminate Hid.
+  - unfold inventory_new. rewrite blen_zero', Hid.
+    rewrite (I2 a) by reflexivity. cbn [negb].
+    assert (Hc : (match p_cdir st with Some d => if cdir_kind d then true else false | None => false end) = false).
+    { destruct (p_cdir st) as [d|] eqn:Ec; [|reflexivity]. rewrite (I1 d) by reflexivity. reflexivity. }
+    rewrite Hc, Hm. reflexivity.
 Qed.
 
 Lemma finish_guarded st : pinv st ->
-  (forall i, p_id st = Some i -> c17_blank_id i = false) ->
   has_errors (snd (finish st)) = false -> fst (finish st) = PInv.
 Proof.
-  intros Hinv Hid He.
-  destruct (finish_args st Hinv He) as (id & a & h & nums & E1 & E2 & E3 & _ & E4 & E5 & E6 & _ & _ & Hnew).
-  rewrite finish_snd in He. unfold finish. rewrite He, E1, E2, E3, E4, E5, E6, Hnew.
-  unfold c17_blank_id in Hid. rewrite (Hid id E1). reflexivity.
+  intros Hinv He.
+  destruct (finish_args st Hinv He) as (id & a & h & nums & E1 & _ & E2 & E3 & _ & E4 & E5 & E6 & _ & _ & Hnew).
+  rewrite finish_snd in He. unfold finish. rewrite He, E1, E2, E3, E4, E5, E6, Hnew. reflexivity.
 Qed.
 
-Lemma visit_guarded items r e : visit items = (r, e) -> has_errors e = false ->
-  (forall i, first_id items = Some i -> c17_blank_id i = false) -> r = PInv.
+(** no error recorded => an inventory is returned: the six [.unwrap()]s on Options and
+    [Inventory::new(..).unwrap()] (serde.rs:500-512) are all guarded, for every document *)
+Lemma visit_guarded items r e : visit items = (r, e) -> has_errors e = false -> r = PInv.
 Proof.
-  unfold visit. destruct (run p0 items) as [st|ea] eqn:R; intros H He Hid.
+  unfold visit. destruct (run p0 items) as [st|ea] eqn:R; intros H He.
   - assert (Hinv := run_inv _ _ _ pinv_p0 R).
-    assert (Hi := run_id _ _ _ R). cbn [p0 p_id] in Hi.
-    assert (G := finish_guarded st Hinv). rewrite H in G. cbn [fst snd] in G. apply G; [|assumption].
-    intros i Hi'. apply Hid. congruence.
+    assert (G := finish_guarded st Hinv). rewrite H in G. cbn [fst snd] in G. now apply G.
   - inversion H; subst. rewrite (run_abort _ _ _ R) in He. discriminate.
 Qed.
 
-(** the visitor never panics outside the blank-id class, errors or not *)
-Lemma visit_no_panic items :
-  (forall i, first_id items = Some i -> c17_blank_id i = false) -> fst (visit items) <> PPanicked.
+(** the visitor never panics, errors or not, whatever the fields are *)
+Lemma visit_no_panic items : fst (visit items) <> PPanicked.
 Proof.
-  intros Hid. destruct (visit items) as [r e] eqn:V. cbn [fst].
+  destruct (visit items) as [r e] eqn:V. cbn [fst].
   destruct (has_errors e) eqn:He.
   - unfold visit in V. destruct (run p0 items) as [st|ea] eqn:R.
     + assert (S := finish_snd st). unfold finish in *. rewrite V in S. cbn [snd] in S.
       rewrite <- S in V. rewrite He in V. inversion V; subst. discriminate.
     + inversion V; subst. discriminate.
-  - rewrite (visit_guarded items r e V He Hid). discriminate.
+  - rewrite (visit_guarded items r e V He). discriminate.
 Qed.
 
 Definition ok_tail : list item :=
   [IType (SStr (b "https://ocfl.io/1.0/spec/#inventory")); IAlg (SStr (b "sha512")); IHead (SStr (b "v1"));
    IManifest CObj; IVersions (VObj [(b "v1", BSome)])].
 
-(** the unguarded case: "id": "" *)
-Lemma blank_id_panics :
-  fst (visit (IId (SStr []) :: ok_tail)) = PPanicked /\
-  has_errors (snd (visit (IId (SStr []) :: ok_tail))) = false /\
-  c17_blank_id [] = true.
-Proof. repeat split; vm_compute; reflexivity. Qed.
+(** "id": "" is a validation error now (E037), wherever the key stands, and no inventory results *)
+Lemma blank_id_is_an_error :
+  visit (IId (SStr []) :: ok_tail) = (PNoInv, [(E037, 1); (E010, 0)]) /\
+  visit (ok_tail ++ [IId (SStr [])]) = (PNoInv, [(E010, 0); (E037, 1)]).
+Proof. split; vm_compute; reflexivity. Qed.
 
 Lemma nonblank_id_ok :
   visit (IId (SStr (b "urn:x")) :: ok_tail) = (PInv, [(E010, 0)]).
+Proof. vm_compute. reflexivity. Qed.
+
+(** a versions block with absurd keys: a verdict with few errors *)
+Lemma absurd_keys_verdict :
+  visit [IId (SStr (b "urn:x")); IType (SStr (b "t")); IAlg (SStr (b "sha512")); IHead (SStr (b "v1"));
+         IManifest CObj; IVersions (VObj [(b "v1", BSome); (b "v400000000", BSome); (b "v4294967295", BSome)])]
+  = (PNoInv, [(E010, 2); (E040, 1)]).
 Proof. vm_compute. reflexivity. Qed.
 
 (* ------------------------------------------------------------------ *)
@@ -967,50 +985,124 @@ Lemma iter_example :
 Proof. vm_compute. reflexivity. Qed.
 
 (* ------------------------------------------------------------------ *)
-(** * 7. Display with a dynamic width *)
+(** * 7. Display of a version number *)
 
-Lemma vparse_width s v : vparse s = Ok v -> vn_width v + 1 <= blen s.
+Lemma vparse_facts s v : vparse s = Ok v ->
+  vn_width v + 1 <= blen s /\ 1 <= vn_number v /\ vn_number v <= U32MAX.
 Proof.
   unfold vparse. destruct s as [|c ds]; [discriminate|].
   destruct (negb (Ascii.eqb c "v")); [discriminate|].
   destruct ds as [|d0 r]; [discriminate|].
   destruct (negb (forallb is_digit (d0 :: r))); [discriminate|].
   destruct (dec_value (d0 :: r)) as [n|]; [|discriminate].
-  destruct (U32MAX <? n); [discriminate|]. destruct (n <? 1); [discriminate|].
-  intros H. inversion H; subst. cbn [vn_width]. unfold blen.
+  destruct (U32MAX <? n) eqn:E1; [discriminate|]. destruct (n <? 1) eqn:E2; [discriminate|].
+  intros H. inversion H; subst. cbn [vn_width vn_number]. unfold blen.
   destruct (Ascii.eqb d0 "0"); cbn [List.length]; lia.
 Qed.
 
-Lemma vdisplay_total_short s v :
-  vparse s = Ok v -> blen s <= FMT_WIDTH_MAX + 1 -> vdisplay_panics v = false.
+Lemma vdisplay_length v :
+  blen (vdisplay v) = 1 + N.max (vn_width v) (blen (dec_digits (vn_number v))).
 Proof.
-  intros H L. apply vparse_width in H. unfold vdisplay_panics, FMT_WIDTH_MAX in *. lia.
+  unfold vdisplay, pad_left0, blen. cbn [List.length]. rewrite app_length, replicate_length. lia.
 Qed.
 
-Lemma wide_padding_witness :
-  exists v, c17_wide_padding v = true /\ vwf v = true /\ vn_number v = 1.
-Proof. exists (mkV 1 65536). repeat split; vm_compute; reflexivity. Qed.
+Lemma dec_digits_u32 n : n <= U32MAX -> blen (dec_digits n) <= 10.
+Proof.
+  intros H. assert (L := dec_digits_length n 10 ltac:(lia)).
+  unfold blen. change (N.of_nat 10) with 10 in L.
+  assert (n < 10 ^ 10) by (change (10 ^ 10) with 10000000000; unfold U32MAX in H; lia).
+  specialize (L H0). lia.
+Qed.
+
+(** what Display writes for a parsed key or head is no longer than the key itself (+ 10), and it
+    takes at most that many [write_str] calls: no panic, cost linear in the input *)
+Lemma vdisplay_linear s v : vparse s = Ok v ->
+  blen (vdisplay v) <= blen s + 10 /\ vdisplay_writes v <= blen s + 1.
+Proof.
+  intros H. destruct (vparse_facts s v H) as (Hw & H1 & Hm).
+  assert (D := dec_digits_u32 _ Hm). rewrite vdisplay_length. unfold vdisplay_writes. lia.
+Qed.
+
+Lemma vdisplay_wide_example :
+  blen (vdisplay (mkV 1 65536)) = 65537 /\ vdisplay_writes (mkV 1 65536) = 65537.
+Proof. split; vm_compute; reflexivity. Qed.
+
+(* ------------------------------------------------------------------ *)
+(** * 1b. the versions block: the set handed to validate_version_nums (serde.rs:615) *)
+
+Lemma vset_insert_forall (P : vnum -> Prop) v : forall s, P v -> Forall P s -> Forall P (vset_insert v s).
+Proof.
+  induction s as [|x r IH]; intros Hv Hs; cbn [vset_insert]; [repeat constructor; assumption|].
+  inversion Hs; subst.
+  destruct (vn_number v <? vn_number x); [constructor; assumption|].
+  destruct (vn_number v =? vn_number x); [assumption|]. constructor; auto.
+Qed.
+
+Lemma vset_insert_length v : forall s, (List.length (vset_insert v s) <= S (List.length s))%nat.
+Proof.
+  induction s as [|x r IH]; cbn [vset_insert List.length]; [lia|].
+  destruct (vn_number v <? vn_number x); [cbn [List.length]; lia|].
+  destruct (vn_number v =? vn_number x); cbn [List.length]; lia.
+Qed.
+
+Lemma versions_fold_nums (P : vnum -> Prop) : (forall k v, vparse k = Ok v -> P v) ->
+  forall l nums keys e nums' keys' e' ab,
+  versions_fold l nums keys e = (nums', keys', e', ab) -> Forall P nums ->
+  Forall P nums' /\ (List.length nums' <= List.length nums + List.length l)%nat.
+Proof.
+  intros HP. induction l as [|[k bd] rest IH]; intros nums keys e nums' keys' e' ab H Hn; cbn [versions_fold] in H.
+  - inversion H; subst. split; [assumption|lia].
+  - assert (Hn1 : Forall P (match vparse k with Ok num => vset_insert num nums | _ => nums end) /\
+                  (List.length (match vparse k with Ok num => vset_insert num nums | _ => nums end)
+                   <= S (List.length nums))%nat).
+    { destruct (vparse k) as [num| |] eqn:E; try (split; [assumption|lia]).
+      split; [apply vset_insert_forall; eauto|apply vset_insert_length]. }
+    destruct Hn1 as [Hn1 Hl1]. cbn [List.length].
+    destruct bd.
+    + apply IH in H; [|exact Hn1]. destruct H; split; [assumption|lia].
+    + apply IH in H; [|exact Hn1]. destruct H; split; [assumption|lia].
+    + inversion H; subst. split; [assumption|lia].
+Qed.
+
+(** for every "versions" object the loop of validate_version_nums returns normally and its cost
+    is linear in the number of keys of the object; the E010 count is the one the model of the
+    visitor records *)
+Lemma versions_value_cost dbg l nums keys e ab : versions_value l = (nums, keys, e, ab) ->
+  exists c, validate_version_nums dbg nums = Ok c /\
+            c_errors c = vnums_cost (map vn_number nums) /\
+            c_errors c <= 100 * nlen l /\ c_iters c <= 101 * nlen l.
+Proof.
+  unfold versions_value. destruct (versions_fold l [] [] []) as [[[n k] e0] ab0] eqn:F.
+  intros H.
+  assert (Hn : nums = n) by (destruct ab0; inversion H; reflexivity). subst n.
+  destruct (versions_fold_nums (fun v => vn_number v <= U32MAX)
+              (fun k v Hk => proj2 (proj2 (vparse_facts k v Hk))) _ _ _ _ _ _ _ _ F (Forall_nil _)) as [Hb Hlen].
+  destruct (validate_version_nums_linear dbg nums Hb) as (c & Hc & L1 & L2 & L3).
+  exists c. split; [exact Hc|]. split; [exact L3|].
+  cbn [List.length] in Hlen. unfold nlen in *. lia.
+Qed.
 
 (* ------------------------------------------------------------------ *)
 (** * corollaries in the form the property file states them *)
 
-Lemma vnums_cost_zero_contiguous vs : incr_from 1 vs -> vnums_cost vs = 0 ->
-  vs = iota 1 (List.length vs).
-Proof. intros Hs H. exact (vnums_zero_contiguous vs 1 0 Hs H). Qed.
+Lemma vnums_cost_zero_contiguous vs : incr_from 1 vs -> Forall (fun v => v <= U32MAX) vs ->
+  vnums_cost vs = 0 -> vs = iota 1 (List.length vs).
+Proof. intros Hs Hb H. exact (vnums_zero_contiguous vs 1 c0 Hs Hb H). Qed.
 
 Lemma visit_args items st : run p0 items = inl st -> has_errors (snd (finish st)) = false ->
   exists id a h nums,
-    p_id st = Some id /\ p_type st = true /\ p_alg st = Some a /\ alg_allowed a = true /\
+    p_id st = Some id /\ id <> [] /\ p_type st = true /\ p_alg st = Some a /\ alg_allowed a = true /\
     p_head st = Some h /\ p_manifest st = true /\ p_versions st = Some (nums, nums) /\
     vset_mem h nums = true /\
     (forall d, p_cdir st = Some d -> cdir_kind d = None) /\
-    inventory_new id a h (p_cdir st) nums = (if is_nil id then Err else Ok tt).
+    inventory_new id a h (p_cdir st) nums = Ok tt.
 Proof. intros R. apply finish_args. exact (run_inv _ _ _ pinv_p0 R). Qed.
 
 Lemma vnums_example :
-  incr_from 1 [1; 2; 3; 5; 9] /\ c17_version_gap [1; 2; 3; 5; 9] = false /\
+  incr_from 1 [1; 2; 3; 5; 9] /\
   vnums_cost [1; 2; 3; 5; 9] = 4 /\
-  validate_version_nums true 10 [mkV 1 0; mkV 2 0; mkV 3 0; mkV 5 0; mkV 9 0] = Ok 4 /\
+  validate_version_nums true [mkV 1 0; mkV 2 0; mkV 3 0; mkV 5 0; mkV 9 0] = Ok (mkC 4 9) /\
+  validate_version_nums false [mkV 1 3; mkV 400000000 3; mkV U32MAX 0] = Ok (mkC 2 3) /\
   vnums_padding [mkV 1 0; mkV 2 2] = (true, false).
 Proof. repeat split; try (vm_compute; reflexivity); cbn [incr_from]; lia. Qed.
 
